@@ -87,6 +87,16 @@ CHECKS = {
             "For every enumerated program with >= 2 pending categories all approval orders are executed as real sessions and must converge to one syntax tree (confluence checked exhaustively per program, not sampled).",
             "<= 3 slots per container; observations recorded instead of asserted (DESIGN.md C09 scope); 12 (quick) / 80 (thorough) programs also through real pytest sessions.",
             "DESIGN.md 5/C09"),
+    "C19": ("exploration",
+            "exhaustive product of a program catalogue x all 16 category subsets, each executed by three separately coded drivers (run_inline, run_pytest, real session); three-way equality of changed files and reported categories; fork server validated against cold processes",
+            "For every program and every category subset the in-process helper, the subprocess helper and a real pytest session are executed and must produce the same changed files and category reports.",
+            "12 (quick) / 18 (thorough) programs without externals; an update with an empty diff is only visible to run_inline and tolerated.",
+            "DESIGN.md 5/C19"),
+    "C20": ("exploration",
+            "bounded-exhaustive sweep: 24 black option combinations x 11 change kinds x argument sizes crossing the wrap limit, clean files and not-clean twins; independent black fixed-point oracle / skeleton oracle",
+            "Each case rewrites a file that the harness made black-clean under the configured mode and the result must be a fixed point of an independently constructed black.Mode; the not-clean twin must keep its layout outside the edited arguments.",
+            "black 26.5.1; configuration read from the project directory (cwd); formatter instability is recorded separately.",
+            "DESIGN.md 5/C20"),
 }
 
 NOT_APPLICABLE = {
